@@ -107,9 +107,12 @@ fn file_roundtrip(rng: &mut Rng, idx: usize, dir: &std::path::Path) -> Vec<Strin
             pos += k;
             sink.work().unwrap();
         }
-        drop(sink);
+        // everything a returned work() consumed is in the file: read it back while the sink is still alive
+        // (as a reader of the recording does when the graph has returned), or after the sink is gone
+        let keep = if rng.chance(1, 2) { Some(sink) } else { drop(sink); None };
         let (mut src, o) = FileSource::<f32>::new(&path).unwrap();
-        out.push(verdict("file_roundtrip_f32", &format!("#{idx} len={len}"), drain_all(&mut src, &o, 3), &data));
+        out.push(verdict("file_roundtrip_f32", &format!("#{idx} len={len} sink-alive={}", keep.is_some()), drain_all(&mut src, &o, 3), &data));
+        drop(keep);
     }
     // complex
     {
@@ -132,9 +135,10 @@ fn file_roundtrip(rng: &mut Rng, idx: usize, dir: &std::path::Path) -> Vec<Strin
             pos += k;
             sink.work().unwrap();
         }
-        drop(sink);
+        let keep = if rng.chance(1, 2) { Some(sink) } else { drop(sink); None };
         let (mut src, o) = FileSource::<Complex>::new(&path).unwrap();
-        out.push(verdict("file_roundtrip_complex", &format!("#{idx} len={len}"), drain_all(&mut src, &o, 3), &data));
+        out.push(verdict("file_roundtrip_complex", &format!("#{idx} len={len} sink-alive={}", keep.is_some()), drain_all(&mut src, &o, 3), &data));
+        drop(keep);
     }
     out
 }
@@ -310,6 +314,10 @@ fn sigmf_archive_case(rng: &mut Rng, idx: usize, dir: &std::path::Path) -> Vec<S
     if rng.chance(1, 3) {
         members.push(("other.sigmf-data".to_string(), vec![7; rng.range(0, 100)]));
     }
+    if rng.chance(1, 3) {
+        // same file name in another directory: a different member (the stem is the whole path)
+        members.push(("backup/rec.sigmf-data".to_string(), vec![9; rng.range(0, 100)]));
+    }
     // permute
     for i in (1..members.len()).rev() {
         let j = rng.below(i + 1);
@@ -374,6 +382,7 @@ fn sigmf_archive_case(rng: &mut Rng, idx: usize, dir: &std::path::Path) -> Vec<S
             "rec.sigmf-data" => (1, 1),
             "second.sigmf-meta" => (2, 0),
             "other.sigmf-data" => (3, 1),
+            "backup/rec.sigmf-data" => (4, 1),
             _ => (9, 2),
         };
         req += &format!(" {stem} {ext} 0 0 {}", content.len());
@@ -461,6 +470,15 @@ pub fn run(args: &[String]) -> Vec<String> {
                 let mut r = rng.fork();
                 out.push(tcp_backpressure_case(&mut r, i));
             }
+        }
+        return out;
+    }
+    if arg(args, "--what").as_deref() == Some("fifo") {
+        // only FileSource on a named pipe fed in odd-sized pieces (used by C16: exactly the data, once, then EOF)
+        let mut out = vec![];
+        for i in 0..cases {
+            let mut r = rng.fork();
+            out.push(fifo_case(&mut r, i, dir.path()));
         }
         return out;
     }
